@@ -10,37 +10,14 @@ import Lc3V.Props.C08
 namespace Lc3V.C28
 open Lc3V Sim SimM
 
-/-- flags recorded for an address (BTreeMap lookup; default 0 = not accessed) -/
-def obsGet (obs : List (W × Nat)) (a : W) : Nat :=
-  match obs with
-  | [] => 0
-  | (b, f) :: rest => if b = a then f else obsGet rest a
-
-theorem obsGet_update (obs : List (W × Nat)) (a b : W) (flag : Nat) :
+theorem obsGet_update (obs : Std.TreeMap Nat Nat) (a b : W) (flag : Nat) :
     obsGet (obsUpdate obs a flag) b = if b = a then obsGet obs a ||| flag else obsGet obs b := by
-  induction obs with
-  | nil =>
-    simp only [obsUpdate, obsGet]
-    by_cases h : b = a
-    · subst h; simp
-    · have h' : ¬ a = b := fun e => h e.symm
-      simp [h, h']
-  | cons p rest ih =>
-    obtain ⟨c, f⟩ := p
-    simp only [obsUpdate]
-    by_cases hc : c = a
-    · subst hc
-      simp only [if_true, obsGet]
-      by_cases h : b = c
-      · subst h; simp
-      · have h' : ¬ c = b := fun e => h e.symm
-        simp [h, h']
-    · simp only [hc, if_false, obsGet]
-      by_cases h : c = b
-      · subst h
-        have : ¬ c = a := hc
-        simp [this]
-      · simp only [h, if_false]; exact ih
+  unfold obsGet obsUpdate
+  rw [Std.TreeMap.getD_insert]
+  by_cases h : b = a
+  · subst h; simp
+  · have hne : ¬ a.toNat = b.toNat := fun e => h (BitVec.eq_of_toNat_eq e).symm
+    simp [h, hne]
 
 /-- a tracked, permitted read marks READ at exactly that address -/
 theorem read_marks (s : Sim) (a : W) (c : Ctx) (ht : c.track = true) (hp : c.privileged = true ∨ inUser a = true) :
@@ -139,13 +116,14 @@ theorem write_marks (s : Sim) (a : W) (d : Word) (c : Ctx) (ht : c.track = true)
     · simp [hb]
 
 /-- `step_in` starts from the empty observer: its result does not depend on what the observer held -/
-theorem stepIn_clears (s : Sim) (o : List (W × Nat)) : stepIn { s with observer := o } = stepIn s := rfl
+theorem stepIn_clears (s : Sim) (o : Std.TreeMap Nat Nat) : stepIn { s with observer := o } = stepIn s := rfl
 
 /-- so do `run_while` and everything built on it -/
-theorem runWhile_clears (s : Sim) (o : List (W × Nat)) (tw : Tripwire) (fuel : Nat) :
+theorem runWhile_clears (s : Sim) (o : Std.TreeMap Nat Nat) (tw : Tripwire) (fuel : Nat) :
     runWhile tw fuel { s with observer := o } = runWhile tw fuel s := rfl
 
-example : obsGet (obsUpdate (obsUpdate [] 0x3000 OBS_READ) 0x3000 OBS_WRITTEN) 0x3000 = 3 := by decide
+example : obsGet (obsUpdate (obsUpdate {} 0x3000 OBS_READ) 0x3000 OBS_WRITTEN) 0x3000 = 3 := by
+  rw [obsGet_update, obsGet_update]; simp [obsGet, OBS_READ, OBS_WRITTEN]
 
 def obligations : List Lean.Name :=
   [``obsGet_update, ``read_marks, ``read_untracked, ``write_untracked, ``ioWritePart_observer, ``violation_unrecorded, ``write_marks,
